@@ -200,7 +200,9 @@ def gen_op(rng, s: Snap):
             x, y = rng.choice(sorted(s.spans))
         else:
             x, y = rng.randint(0, W), rng.randint(0, H)
-        return {"op": name, "at": [x, y]}
+        # every documented way of naming the span: its upper left cell, or an area whose upper left cell is used
+        # (the area need not be the span's own: smaller, larger, a single cell written as an area)
+        return {"op": name, "at": [x, y], "form": rng.choice(["tuple", "tuple", "str", "area-one-cell", "area-str-one-cell", "area-larger", "list"])}
     return {"op": name}
 
 
@@ -299,7 +301,16 @@ def apply_and_judge(t, op, before: Snap):
                     out.append(("set_span(merge):values-outside-changed", {"diff": diff_vals(outside_b, outside_a)}))
     elif o == "del_span":
         x, y = op["at"]
-        r = t.del_span((x, y))
+        form = op.get("form", "tuple")
+        arg = {
+            "tuple": (x, y),
+            "list": [x, y],
+            "str": f"{TL.alpha(x)}{y + 1}",
+            "area-one-cell": (x, y, x, y),
+            "area-str-one-cell": f"{TL.alpha(x)}{y + 1}:{TL.alpha(x)}{y + 1}",
+            "area-larger": (x, y, x + 7, y + 7),
+        }[form]
+        r = t.del_span(arg)
         a = Snap(t)
         is_origin = (x, y) in before.spans
         if bool(r) != is_origin:
